@@ -44,6 +44,14 @@ CLAIMS = {
     technique="Kani/CBMC bounded model checking (SAT, CaDiCaL) of the compiled guards over all bit patterns; concrete playback replay",
     note="Trusted: Kani 0.68, CBMC 6.11, CaDiCaL; the documented-range oracle. Stubs: regex::Regex::new (count vectoriser), rayon bridges (thorough real-builder harnesses), listed per harness in evidence. Assumed: finite non-NaN floats, -0.0 excluded; unwind bounds per harness (unwinding assertions on). Timeout / OOM / ICE / unsatisfied cover are reported inconclusive, never as a pass.",
     design_ref="DESIGN.md §3, §4 C04"),
+ "C05": dict(
+    text="Partial (ROC/AUC and log-loss take f32 probabilities and are outside). Regression metrics (max/mean/median absolute error, MSE, MSLE structure, MAPE, R2, explained variance; Array1/Array2/Dataset receivers, per column), silhouette score (two clusters, 1-D) and Pearson correlation run on symbolic integer vectors (n<=4-6); each result is tied to its textbook formula by z3 in cross-multiplied form (so that divisions/sqrt appear only as the terms linfa itself built), plus permutation invariance inside one run. The confusion matrix and everything derived from it (accuracy, precision, recall, F-beta, MCC, one-vs-all / one-vs-one splits) run on every pair of symbolic label vectors (n<=4, <=3 classes, usize/bool/String labels, all four call forms) and are recomputed from the label vectors on each path. Two recorded defects (explained_variance formula; transposed matrix for array.confusion_matrix(&dataset)) are reported as KNOWN-FINDING by dedicated jobs.",
+    technique="symbolic-scalar concolic execution + SMT (z3, nonlinear obligations cross-multiplied); solver-guided enumeration of label vectors; native replay",
+    design_ref="DESIGN.md §4 C05"),
+ "C16": dict(
+    text="Partial (whiteners are outside: SVD/Cholesky on the scalar do not close). LinearScaler (standard with/without mean/std, min-max with a symbolic range, max-abs) and NormScaler (l1, l2, max) are fitted on symbolic integer matrices (n<=4, p<=2) incl. constant, all-zero columns and rows as separate paths; z3 ties offsets/scales to the textbook mean / std / min / max, the transform to the affine map of offsets()/scales() on training and unseen rows, the postconditions (zero mean, unit variance in cross-multiplied form, range ends attained, unit norm, finite output), commutation with row reordering (term identity), metadata pass-through and the empty-input / flipped-range errors.",
+    technique="symbolic-scalar concolic execution + SMT (z3); term identity for row-wise invariance; native replay",
+    design_ref="DESIGN.md §4 C16"),
 }
 NA = {
  "C10": "not applicable to solver-based checking within reach: a Gaussian-mixture fit is k-means initialisation + Cholesky factorisations + an EM loop with exp/ln in every step and a data-dependent iteration count; with exp/ln uninterpreted the fitted weights/covariances are unconstrained terms, so positivity, normalisation and the precision-covariance inverse relation cannot be decided, and z3's nonlinear real arithmetic does not get through one EM step (DESIGN.md C10). Only GmmParams::check_ref is covered, under C04.",
